@@ -147,7 +147,22 @@ func Sets() [][]Def {
 			P("BF", `f[\xE000-\xE002]`), P("BG", `g[\xFFFD-\xFFFF]`), P("BH", `h[\xFFFE-\x010001]`), P("BI", `i[\x10FFFD-\x10FFFF]`), P("BJ", `j\x10FFFF`),
 			P("BK", `k\xD7FF`), P("BL", `l\xE000`), P("BM", `m[\x26-\x28]`), P("BN", `n[\x5B-\x5D]`), P("BO", `o[\x21-\x27]`), P("BP", `p[\x5A-\x5C]`),
 			P("BQ", `q[\x27-\x29]`), P("BR", `r[\x5C-\x5E]`), P("BS", `s[\xD7FE-\xE001]`), P("BT", `t[\x01-\x03]`), P("BU", `u[\x10FFFE-\x10FFFF]+`)},
+		// terminal names holding TWO of the characters that need care in Go source, in both orders: every ordered pair of
+		// double quote, backslash, back-quote, single quote, percent sign, braces and dollar sign
+		awkwardPairs(),
 	}
+}
+
+func awkwardPairs() []Def {
+	parts := []string{`\"`, `\\`, "`", "'", "%", "{{", "}}", "$"}
+	var out []Def
+	for _, a := range parts {
+		for _, b := range parts {
+			src := a + b
+			out = append(out, Def{Name: src, Src: src, Literal: true, Implicit: true})
+		}
+	}
+	return append(out, Def{Name: "ID", Src: "[a-z]+"})
 }
 
 func controlSet() []Def {
